@@ -1,5 +1,6 @@
 import Drivers.Common
 import Drivers.OracleD
+import Drivers.GovD
 /-
   Chain driver: reads the trace of the real application (one JSON object per line),
   runs the model on every operation from the *observed* pre-state, compares the
@@ -17,9 +18,16 @@ structure DS where
   ledger : Ledger := default
   oracle : Oracle.State := default
   hasOracle : Bool := false
+  gov : Gov.State := default
+  hasGov : Bool := false
+  cert : Cert.State := default
+  hasCert : Bool := false
+  stake : Gov.StakeView := default
   -- C14 ghost ledger (from observations only)
   dep : List (Addr × Coins) := []
   ret : List (Addr × Coins) := []
+  -- C12 ghost: statuses each proposal has been seen in
+  seenStatus : List (Nat × List Nat) := []
   stats : List (String × Nat) := []
   nFind : Nat := 0
   seen : List String := []          -- (kind,name) already reported in this history
@@ -44,40 +52,102 @@ def loadObs (ds : DS) (st : Json) : DS := Id.run do
   let mut ds := ds
   if J.has st "bank" then ds := { ds with ledger := parseLedger (J.get st "bank") }
   if J.has st "oracle" then ds := { ds with oracle := OracleD.parseState (J.get st "oracle"), hasOracle := true }
+  if J.has st "gov" then ds := { ds with gov := GovD.parseGov (J.get st "gov"), hasGov := true }
+  if J.has st "cert" then ds := { ds with cert := GovD.parseCert (J.get st "cert"), hasCert := true }
+  if J.has st "staking" then ds := { ds with stake := GovD.parseStake (J.get st "staking") }
   return ds
 
 def oracleEnv (ds : DS) : Oracle.Env := { h := ds.h, t := ds.t, bond := "uctk", modAddr := ds.sys.modAddr "oracle" }
+def govEnv (ds : DS) (stake : Gov.StakeView) : Gov.Env := { t := ds.t, bond := "uctk", modAddr := ds.sys.modAddr "gov", stake := stake }
+
+/-- the part of the world the models cover -/
+structure MW where
+  l : Ledger
+  o : Oracle.State
+  g : Gov.State
+  c : Cert.State
+
+def proposalOfMsg (m : Json) : Gov.Proposal :=
+  { id := 0, kind := J.strOf m "kind", cuCertifier := J.strOf m "certifier", cuAlias := J.strOf m "alias", cuAdd := J.boolOf m "add",
+    cuProposer := J.strOf m "contentProposer", status := 0, isCouncil := false, proposer := "", totalDeposit := [], submitTime := 0,
+    depositEnd := 0, votingStart := 0, votingEnd := 0, tally := ⟨0, 0, 0, 0⟩ }
 
 /-- apply one message of the trace to the model; `none` = message kind not modelled -/
-def applyMsg (ds : DS) (l : Ledger) (o : Oracle.State) (m : Json) : Option (Except Err (Ledger × Oracle.State)) :=
+def applyMsg (ds : DS) (stake : Gov.StakeView) (w : MW) (m : Json) : Option (Except Err MW) :=
   let e := oracleEnv ds
+  let ge := govEnv ds stake
+  let onOracle (r : Except Err (Ledger × Oracle.State)) : Option (Except Err MW) := some (r.map (fun (l, o) => { w with l := l, o := o }))
+  let onGov (r : Except Err Gov.World) : Option (Except Err MW) := some (r.map (fun x => { w with l := x.l, g := x.g, c := x.c }))
+  let gw : Gov.World := { l := w.l, g := w.g, c := w.c }
   match J.strOf m "t" with
-  | "oracle.createOperator" => some (Oracle.createOperator e l o (J.strOf m "addr") (J.coinsOf m "coll") (J.strOf m "proposer"))
-  | "oracle.removeOperator" => some (Oracle.removeOperator e l o (J.strOf m "addr"))
-  | "oracle.addCollateral" => some (Oracle.addCollateral e l o (J.strOf m "addr") (J.coinsOf m "amt"))
-  | "oracle.reduceCollateral" => some (Oracle.reduceCollateral e l o (J.strOf m "addr") (J.coinsOf m "amt"))
-  | "oracle.withdrawReward" => some (Oracle.withdrawReward e l o (J.strOf m "addr"))
-  | "oracle.createTask" => some (Oracle.createTask e l o (J.strOf m "contract") (J.strOf m "function") (J.coinsOf m "bounty")
+  | "oracle.createOperator" => onOracle (Oracle.createOperator e w.l w.o (J.strOf m "addr") (J.coinsOf m "coll") (J.strOf m "proposer"))
+  | "oracle.removeOperator" => onOracle (Oracle.removeOperator e w.l w.o (J.strOf m "addr"))
+  | "oracle.addCollateral" => onOracle (Oracle.addCollateral e w.l w.o (J.strOf m "addr") (J.coinsOf m "amt"))
+  | "oracle.reduceCollateral" => onOracle (Oracle.reduceCollateral e w.l w.o (J.strOf m "addr") (J.coinsOf m "amt"))
+  | "oracle.withdrawReward" => onOracle (Oracle.withdrawReward e w.l w.o (J.strOf m "addr"))
+  | "oracle.createTask" => onOracle (Oracle.createTask e w.l w.o (J.strOf m "contract") (J.strOf m "function") (J.coinsOf m "bounty")
                                     (J.strOf m "creator") (J.intOf m "wait") (J.intOf m "valid"))
-  | "oracle.respond" => some ((Oracle.respond e o (J.strOf m "contract") (J.strOf m "function") (J.intOf m "score") (J.strOf m "op")).map (fun o' => (l, o')))
-  | "oracle.deleteTask" => some ((Oracle.deleteTask e o (J.strOf m "contract") (J.strOf m "function") (J.boolOf m "force") (J.strOf m "deleter")).map (fun o' => (l, o')))
+  | "oracle.respond" => onOracle ((Oracle.respond e w.o (J.strOf m "contract") (J.strOf m "function") (J.intOf m "score") (J.strOf m "op")).map (fun o' => (w.l, o')))
+  | "oracle.deleteTask" => onOracle ((Oracle.deleteTask e w.o (J.strOf m "contract") (J.strOf m "function") (J.boolOf m "force") (J.strOf m "deleter")).map (fun o' => (w.l, o')))
+  | "gov.submit" =>
+    let k := J.strOf m "kind"
+    if k == "text" || k == "certifierUpdate" || k == "upgrade" then
+      onGov (Gov.submit ge gw (J.strOf m "proposer") (proposalOfMsg m) (J.coinsOf m "deposit"))
+    else none
+  | "gov.deposit" =>
+    if (w.g.proposals.find? (·.id == (J.intOf m "pid").toNat)).any (·.kind == "claim") then none
+    else onGov (Gov.addDeposit ge gw (J.intOf m "pid").toNat (J.strOf m "depositor") (J.coinsOf m "amt"))
+  | "gov.vote" => onGov (Gov.vote gw (J.intOf m "pid").toNat (J.strOf m "voter") (J.intOf m "option").toNat)
+  | "cert.issue" => some ((Cert.issue w.c (J.strOf m "certifier") (J.strOf m "kind") (J.strOf m "content")).map (fun c' => { w with c := c' }))
+  | "cert.revoke" => some ((Cert.revoke w.c (J.strOf m "revoker") (J.intOf m "id").toNat).map (fun c' => { w with c := c' }))
+  | "cert.platform" => some ((Cert.certifyPlatform w.c (J.strOf m "certifier") (J.strOf m "pubkey64") (J.strOf m "platform")).map (fun c' => { w with c := c' }))
   | _ => none
 
-def applyMsgs (ds : DS) : List Json → Ledger → Oracle.State → Option (Except Err (Ledger × Oracle.State))
-  | [], l, o => some (.ok (l, o))
-  | m :: ms, l, o =>
-    match applyMsg ds l o m with
+def applyMsgs (ds : DS) (stake : Gov.StakeView) : List Json → MW → Option (Except Err MW)
+  | [], w => some (.ok w)
+  | m :: ms, w =>
+    match applyMsg ds stake w m with
     | none => none
     | some (.error x) => some (.error x)
-    | some (.ok (l', o')) => applyMsgs ds ms l' o'
+    | some (.ok w') => applyMsgs ds stake ms w'
 
 def balDiffs (model impl : Ledger) (skip : List Addr) : List String :=
   let accts := (model.accounts ++ impl.accounts).eraseDups.filter (fun a => !skip.contains a)
   accts.filterMap (fun a => if Coins.beq (model.bal a) (impl.bal a) then none
     else some s!"bal[{a}]:model={Coins.toStr (model.bal a)},impl={Coins.toStr (impl.bal a)}")
 
+def propOfKind (kind : String) : String :=
+  if kind.startsWith "oracle.createTask" || kind.startsWith "oracle.respond" || kind.startsWith "oracle.deleteTask" then "C15"
+  else if kind.startsWith "oracle." then "C14"
+  else if kind.startsWith "gov.deposit" then "C11"
+  else if kind.startsWith "gov.submit" then "C11,C12"
+  else if kind.startsWith "gov." then "C12"
+  else if kind.startsWith "cert." then "C13"
+  else "C01"
+
+/-- compare the model's world with the observed one; one finding per differing fact -/
+def compareWorld (ds : DS) (tag : String) (w : MW) (skipAccts : List Addr) : IO DS := do
+  let mut ds := ds
+  if ds.hasOracle then
+    for x in OracleD.diffFacts (OracleD.facts w.o) (OracleD.facts ds.oracle) do
+      ds ← finding ds "diverge" (OracleD.propsOfFact x) s!"state:{tag}" x
+  if ds.hasGov then
+    for x in GovD.diffFacts (GovD.govFacts w.g) (GovD.govFacts ds.gov) do
+      ds ← finding ds "diverge" (GovD.propsOfGovFact x) s!"state:{tag}" x
+  if ds.hasCert then
+    for x in GovD.diffFacts (GovD.certFacts w.c) (GovD.certFacts ds.cert) do
+      ds ← finding ds "diverge" "C13" s!"state:{tag}" x
+  for x in balDiffs w.l ds.ledger skipAccts do
+    ds ← finding ds "diverge" (propOfKind tag ++ ",C01") s!"balance:{tag}" x
+  return ds
+
+def noteStatuses (ds : DS) : DS :=
+  { ds with seenStatus := ds.gov.proposals.foldl (fun acc p =>
+      if acc.any (·.1 == p.id) then acc.map (fun e => if e.1 == p.id && !e.2.contains p.status then (e.1, e.2 ++ [p.status]) else e)
+      else acc ++ [(p.id, [p.status])]) ds.seenStatus }
+
 /-- monitors evaluated on every observed state -/
-def runMonitors (ds : DS) (afterBegin : Bool) : IO DS := do
+def runMonitors (ds : DS) (afterBegin boundary : Bool) : IO DS := do
   let mut ds := ds
   if ds.hasOracle then
     let s := ds.oracle
@@ -91,18 +161,67 @@ def runMonitors (ds : DS) (afterBegin : Bool) : IO DS := do
       ds ← finding ds "monitor" "C14" "no_overdue" s!"h={ds.h} wds={String.intercalate ";" (s.wds.map OracleD.showWd)}"
     if !OracleD.monResponsesValid s then
       ds ← finding ds "monitor" "C15" "responses_valid" (String.intercalate ";" (s.tasks.map OracleD.showTask))
-    -- C14 conservation: deposited = collateral + pending + returned, per account and denomination
     for (a, d) in ds.dep do
       let coll := ((s.ops.find? (·.addr == a)).map (·.coll)).getD []
       let pend := (s.wds.filter (·.addr == a)).foldl (fun acc w => Coins.add acc w.amt) []
       let rhs := Coins.add (Coins.add coll pend) (getOf ds.ret a)
       if !Coins.beq d rhs then
         ds ← finding ds "monitor" "C14" "collateral_conserved" s!"acct={a} deposited={Coins.toStr d} collateral={Coins.toStr coll} pending={Coins.toStr pend} returned={Coins.toStr (getOf ds.ret a)}"
+  if ds.hasGov then
+    ds := stat ds "mon.evaluated"
+    let g := ds.gov
+    let mb := ds.ledger.bal (ds.sys.modAddr "gov")
+    if boundary && !GovD.monEscrowExact mb g then
+      ds ← finding ds "monitor" "C11" "escrow_exact" s!"modbal={Coins.toStr mb} owed={Coins.toStr (GovD.escrowOwed g)}"
+    if boundary then
+      for x in GovD.monNoOrphanDeposit g do ds ← finding ds "monitor" "C11" "no_deposit_after_end" x
+    for x in GovD.monDepositSum g do ds ← finding ds "monitor" "C11" "deposit_records_sum" x
+  if ds.hasCert then
+    let c := ds.cert
+    for x in GovD.monAliasUnique c do ds ← finding ds "monitor" "C13" "alias_unique" x
+    for x in GovD.monAliasIndex c do ds ← finding ds "monitor" "C13" "alias_unique" x
+    if !GovD.monIdsUnique c then ds ← finding ds "monitor" "C13" "fresh_id" (String.intercalate ";" (GovD.certFacts c))
   return ds
 
+/-- transition monitors of gov/cert that hold for every kind of step -/
+def transitionMonitors (ds : DS) (preG : Gov.State) (preC : Cert.State) (isEnd : Bool) : IO DS := do
+  let mut ds := ds
+  if ds.hasGov then
+    for x in GovD.monStatusForward preG ds.gov do ds ← finding ds "monitor" "C12" "status_forward" x
+    for x in GovD.monRouting preG ds.gov do ds ← finding ds "monitor" "C12" "round_routing" x
+    for x in GovD.monPassPath preG ds.gov do ds ← finding ds "monitor" "C12" "pass_needs_rounds" x
+    -- upgrades and claims that pass must have been seen in the certifier round as well
+    for p in ds.gov.proposals do
+      let before := ((preG.proposals.find? (·.id == p.id)).map (·.status)).getD 0
+      if p.status == 4 && before != 4 && (p.kind == "upgrade" || p.kind == "claim") then
+        let seen := ((ds.seenStatus.find? (·.1 == p.id)).map (·.2)).getD []
+        if !(seen.contains 2 && seen.contains 3) then
+          ds ← finding ds "monitor" "C12" "pass_needs_rounds" s!"passed-without-both-rounds:{p.id}:{p.kind}:seen={seen}"
+  if ds.hasCert then
+    -- the council changes only when a certifier-update proposal passes (in an EndBlock)
+    if GovD.certifierSet preC != GovD.certifierSet ds.cert then
+      let passedNow := ds.gov.proposals.filter (fun p => p.kind == "certifierUpdate" && p.status == 4 &&
+        ((preG.proposals.find? (·.id == p.id)).map (·.status)).getD 0 != 4)
+      if !isEnd || passedNow.isEmpty then
+        ds ← finding ds "monitor" "C13" "council_changes_only_by_governance" s!"before={GovD.certifierSet preC} after={GovD.certifierSet ds.cert}"
+      else
+        ds := stat ds "sit.c13.council_changed"
+        -- every change must be the content of a proposal that passed now
+        let added := ds.cert.certifiers.filter (fun x => !(preC.certifiers.any (·.addr == x.addr)))
+        let removed := preC.certifiers.filter (fun x => !(ds.cert.certifiers.any (·.addr == x.addr)))
+        for x in added do
+          if !(passedNow.any (fun p => p.cuAdd && p.cuCertifier == x.addr && p.cuAlias == x.alias)) then
+            ds ← finding ds "monitor" "C13" "council_changes_only_by_governance" s!"added-without-proposal:{x.addr}|{x.alias}"
+        for x in removed do
+          if !(passedNow.any (fun p => !p.cuAdd && p.cuCertifier == x.addr)) then
+            ds ← finding ds "monitor" "C13" "council_changes_only_by_governance" s!"removed-without-proposal:{x.addr}"
+    if !preC.certifiers.isEmpty && ds.cert.certifiers.isEmpty then
+      ds ← finding ds "monitor" "C13" "council_never_empty" s!"before={GovD.certifierSet preC}"
+  return noteStatuses ds
+
 def handleTx (ds : DS) (j : Json) : IO DS := do
-  let preL := ds.ledger
-  let preO := ds.oracle
+  let pre : MW := { l := ds.ledger, o := ds.oracle, g := ds.gov, c := ds.cert }
+  let preStake := ds.stake
   let signer := J.strOf j "signerAddr"
   let fee : Coins := if J.intOf j "fee" > 0 then [("uctk", J.intOf j "fee")] else []
   let code := J.intOf j "code"
@@ -111,116 +230,187 @@ def handleTx (ds : DS) (j : Json) : IO DS := do
   let mut ds := loadObs ds (J.get j "st")
   ds := stat ds s!"tx.{kind}.{if code == 0 then "ok" else "fail"}"
   -- ante: fee deduction
-  let lFee := preL.move signer (ds.sys.modAddr "fee_collector") fee
-  match applyMsgs ds msgs lFee preO with
+  let lFee := pre.l.move signer (ds.sys.modAddr "fee_collector") fee
+  match applyMsgs ds preStake msgs { pre with l := lFee } with
   | none => ds := stat ds "tx.unmodelled"
   | some r =>
     ds := stat ds "tx.validated"
     match r with
     | .error x =>
       if code == 0 then
-        ds ← finding ds "diverge" (if kind.startsWith "oracle.createTask" || kind.startsWith "oracle.respond" || kind.startsWith "oracle.deleteTask" then "C15" else "C14") s!"result:{kind}" s!"model=fail({x.kind}) impl=ok"
+        ds ← finding ds "diverge" (propOfKind kind) s!"result:{kind}" s!"model=fail({x.kind}) impl=ok {(Json.arr msgs.toArray).compress}"
       else
-        -- failed tx: nothing but the fee may change
-        let d := balDiffs lFee ds.ledger []
-        let f := OracleD.diffFacts (OracleD.facts preO) (OracleD.facts ds.oracle)
-        if !d.isEmpty || !f.isEmpty then
-          ds ← finding ds "diverge" "C14,C15" s!"failed-tx-changed-state:{kind}" (String.intercalate " " (d ++ f))
-    | .ok (l', o') =>
+        -- a failed transaction changes nothing but the fee (and not even that when ValidateBasic rejects it)
+        ds ← compareWorld ds s!"failed:{kind}" (if x.isBasic then pre else { pre with l := lFee }) []
+    | .ok w' =>
       if code != 0 then
-        ds ← finding ds "diverge" (if kind.startsWith "oracle.createTask" || kind.startsWith "oracle.respond" || kind.startsWith "oracle.deleteTask" then "C15" else "C14") s!"result:{kind}" s!"model=ok impl=fail(code={code},log={J.strOf j "log"})"
+        ds ← finding ds "diverge" (propOfKind kind) s!"result:{kind}" s!"model=ok impl=fail(code={code},log={J.strOf j "log"}) {(Json.arr msgs.toArray).compress}"
       else
-        let f := OracleD.diffFacts (OracleD.facts o') (OracleD.facts ds.oracle)
-        let d := balDiffs l' ds.ledger []
-        for x in f do
-          ds ← finding ds "diverge" (OracleD.propsOfFact x) s!"state:{kind}" x
-        for x in d do
-          ds ← finding ds "diverge" "C14,C01" s!"balance:{kind}" x
+        ds ← compareWorld ds kind w' []
   if ds.nSample < 3 && code == 0 then
     IO.println ("SAMPLE " ++ (Json.mkObj [("op", Json.arr msgs.toArray), ("signer", J.get j "signer"), ("h", J.get j "h"), ("code", J.get j "code")]).compress)
     ds := { ds with nSample := ds.nSample + 1 }
   if ds.hasOracle then
-    for x in OracleD.monStatusChanges preO ds.oracle false ds.h do
+    for x in OracleD.monStatusChanges pre.o ds.oracle false ds.h do
       ds ← finding ds "monitor" "C15" "aggregated_once_at_closing" x
-  -- ghost ledger of C14 from observations
   if code == 0 then
     for m in msgs do
       match J.strOf m "t" with
       | "oracle.respond" =>
         ds := stat ds "mon.c15.respond"
-        if !OracleD.monRespondAccepted preO ds.h (J.strOf m "contract") (J.strOf m "function") (J.intOf m "score") (J.strOf m "op") then
+        if !OracleD.monRespondAccepted pre.o ds.h (J.strOf m "contract") (J.strOf m "function") (J.intOf m "score") (J.strOf m "op") then
           ds ← finding ds "monitor" "C15" "response_accepted_wrongly" (m.compress)
       | "oracle.deleteTask" =>
         ds := stat ds "mon.c15.delete"
-        if !OracleD.monDeleteAccepted preO ds.h ds.t (J.strOf m "contract") (J.strOf m "function") (J.boolOf m "force") (J.strOf m "deleter") then
+        if !OracleD.monDeleteAccepted pre.o ds.h ds.t (J.strOf m "contract") (J.strOf m "function") (J.boolOf m "force") (J.strOf m "deleter") then
           ds ← finding ds "monitor" "C15" "task_removed_wrongly" (m.compress)
-      | _ => pure ()
-    for m in msgs do
-      match J.strOf m "t" with
       | "oracle.createOperator" => ds := { ds with dep := addTo ds.dep (J.strOf m "addr") (J.coinsOf m "coll") }
       | "oracle.addCollateral" => ds := { ds with dep := addTo ds.dep (J.strOf m "addr") (J.coinsOf m "amt") }
+      | "gov.vote" =>
+        ds := stat ds "mon.c12.vote"
+        match GovD.monVoteAccepted pre.g pre.c (J.intOf m "pid").toNat (J.strOf m "voter") (J.intOf m "option").toNat with
+        | some x => ds ← finding ds "monitor" "C12" "vote_eligibility" (x ++ " " ++ m.compress)
+        | none => pure ()
+      | "gov.deposit" =>
+        -- the depositor paid exactly the amount into escrow
+        let amt := J.coinsOf m "amt"
+        let d := J.strOf m "depositor"
+        let paid := Coins.sub (Coins.sub (pre.l.bal d) (ds.ledger.bal d)) (if d == signer then fee else [])
+        if !Coins.beq paid amt then ds ← finding ds "monitor" "C11" "deposit_escrowed" s!"depositor paid {Coins.toStr paid} for a deposit of {Coins.toStr amt}"
+      | "cert.issue" =>
+        ds := stat ds "mon.c13.issue"
+        if !Cert.isCertifier pre.c signer then ds ← finding ds "monitor" "C13" "only_certifiers_certify" s!"issued by non-certifier {signer}"
+        let fresh := ds.cert.certs.filter (fun x => !(pre.c.certs.any (·.id == x.id)))
+        if fresh.length != 1 || fresh.any (fun x => x.id < pre.c.nextId) || ds.cert.nextId ≤ pre.c.nextId then
+          ds ← finding ds "monitor" "C13" "fresh_id" s!"nextId {pre.c.nextId}->{ds.cert.nextId} new={fresh.map (·.id)}"
+      | "cert.platform" =>
+        if !Cert.isCertifier pre.c signer then ds ← finding ds "monitor" "C13" "only_certifiers_certify" s!"platform certified by non-certifier {signer}"
+      | "cert.revoke" =>
+        ds := stat ds "mon.c13.revoke"
+        if !Cert.isCertifier pre.c signer then ds ← finding ds "monitor" "C13" "only_certifiers_certify" s!"revoked by non-certifier {signer}"
       | _ => pure ()
-  runMonitors ds false
+  if ds.hasCert then
+    -- certificates stay retrievable (unchanged) unless this transaction revoked them
+    let revoked := if code == 0 then msgs.filterMap (fun m => if J.strOf m "t" == "cert.revoke" then some (J.intOf m "id").toNat else none) else []
+    for x in pre.c.certs do
+      if !(revoked.contains x.id) && !(ds.cert.certs.any (fun y => y == x)) then
+        ds ← finding ds "monitor" "C13" "certificate_retrievable" s!"certificate {x.id} ({x.kind},{x.content},{x.certifier}) disappeared or changed"
+  ds ← transitionMonitors ds pre.g pre.c false
+  runMonitors ds false false
 
 def handleBegin (ds : DS) (j : Json) : IO DS := do
-  let preL := ds.ledger
-  let preO := ds.oracle
+  let pre : MW := { l := ds.ledger, o := ds.oracle, g := ds.gov, c := ds.cert }
   let mut ds := { ds with h := J.intOf j "h", t := J.intOf j "t" }
   if J.has j "panic" then
     ds ← finding ds "panic" "C08" ("begin:" ++ J.strOf (J.get j "panic") "site") (J.strOf (J.get j "panic") "value")
     return ds
   ds := loadObs ds (J.get j "st")
   ds := stat ds "block.begin"
+  let mut w := pre
   if ds.hasOracle then
-    -- C14 ghost: what operators got back in this BeginBlock
     for (a, _) in ds.dep do
-      let delta := Coins.sub (ds.ledger.bal a) (preL.bal a)
+      let delta := Coins.sub (ds.ledger.bal a) (pre.l.bal a)
       if !Coins.isZero delta then
         ds := { ds with ret := addTo ds.ret a delta }
-        ds := stat ds "c14.withdrawal_paid"
-    match Oracle.beginBlock (oracleEnv ds) preL preO with
+        ds := stat ds "sit.c14.withdrawal_paid"
+    match Oracle.beginBlock (oracleEnv ds) pre.l pre.o with
     | .error x => ds ← finding ds "diverge" "C14,C08" "begin:model-panics" x.kind
-    | .ok (l', o') =>
-      let f := OracleD.diffFacts (OracleD.facts o') (OracleD.facts ds.oracle)
-      let d := balDiffs l' ds.ledger ds.sys.systemAccts
-      for x in f do ds ← finding ds "diverge" "C14" "state:begin" x
-      for x in d do ds ← finding ds "diverge" "C14,C01" "balance:begin" x
-  runMonitors ds true
+    | .ok (l', o') => w := { w with l := l', o := o' }
+  ds ← compareWorld ds "begin" w ds.sys.systemAccts
+  ds ← transitionMonitors ds pre.g pre.c false
+  runMonitors ds true false
 
 def handleEnd (ds : DS) (j : Json) : IO DS := do
-  let preL := ds.ledger
-  let preO := ds.oracle
+  let pre : MW := { l := ds.ledger, o := ds.oracle, g := ds.gov, c := ds.cert }
+  let preStake := ds.stake
   let mut ds := ds
   if J.has j "panic" then
     ds ← finding ds "panic" "C08" ("end:" ++ J.strOf (J.get j "panic") "site") (J.strOf (J.get j "panic") "value")
     return ds
   ds := loadObs ds (J.get j "st")
   ds := stat ds "block.end"
+  let mut w := pre
+  let mut modelOk := true
+  if ds.hasGov then
+    -- gov runs before oracle in the end-blocker order; they share nothing but the ledger
+    if pre.g.proposals.any (fun p => p.kind == "claim" && GovD.liveStatus p.status) then
+      modelOk := false   -- claims are validated by the shield engine
+      ds := stat ds "end.gov_unmodelled_claim"
+    else match Gov.endBlock (govEnv ds preStake) { l := w.l, g := w.g, c := w.c } with
+      | .error x => ds ← finding ds "diverge" "C11,C08" "end:gov-model-panics" x.kind; modelOk := false
+      | .ok x => w := { w with l := x.l, g := x.g, c := x.c }
   if ds.hasOracle then
-    match Oracle.endBlock (oracleEnv ds) preO with
-    | .error x => ds ← finding ds "diverge" "C15,C08" "end:model-panics" x.kind
-    | .ok o' =>
-      let f := OracleD.diffFacts (OracleD.facts o') (OracleD.facts ds.oracle)
-      let d := balDiffs preL ds.ledger ds.sys.systemAccts
-      for x in f do ds ← finding ds "diverge" (OracleD.propsOfFact x) "state:end" x
-      for x in d do ds ← finding ds "diverge" "C15,C01" "balance:end" x
-      if !(Oracle.closingAt preO ds.h).isEmpty then ds := stat ds "c15.tasks_closed_blocks"
-    for x in OracleD.monStatusChanges preO ds.oracle true ds.h do
+    match Oracle.endBlock (oracleEnv ds) w.o with
+    | .error x => ds ← finding ds "diverge" "C15,C08" "end:model-panics" x.kind; modelOk := false
+    | .ok o' => w := { w with o := o' }
+    if !(Oracle.closingAt pre.o ds.h).isEmpty then ds := stat ds "sit.c15.tasks_closed_blocks"
+  if modelOk then ds ← compareWorld ds "end" w ds.sys.systemAccts
+  if ds.hasOracle then
+    for x in OracleD.monStatusChanges pre.o ds.oracle true ds.h do
       ds ← finding ds "monitor" "C15" "aggregated_once_at_closing" x
     for x in OracleD.monNoMissedAggregation ds.oracle ds.h do
       ds ← finding ds "monitor" "C15" "aggregated_once_at_closing" ("pending-after-closing-block:" ++ x)
     for t in ds.oracle.tasks do
-      match OracleD.findT preO t with
+      match OracleD.findT pre.o t with
       | some p =>
         if p.status == 1 && t.status != 1 then
           ds := stat ds (if t.status == 2 then "sit.c15.task_succeeded" else "sit.c15.task_failed")
-          match OracleD.monAggregation "uctk" preO p t with
+          match OracleD.monAggregation "uctk" pre.o p t with
           | some x => ds ← finding ds "monitor" "C15" "aggregation_result" x
           | none => pure ()
       | none => pure ()
-    for x in OracleD.monBounty preO ds.oracle ds.h do
+    for x in OracleD.monBounty pre.o ds.oracle ds.h do
       ds ← finding ds "monitor" "C15" "bounty_bounded" x
-  runMonitors ds false
+  if ds.hasGov then
+    -- C11: what left escrow went back to the depositors or was burned, exactly
+    let finalised := pre.g.proposals.filter (fun p => GovD.liveStatus p.status &&
+      !((ds.gov.proposals.find? (·.id == p.id)).any (fun q => GovD.liveStatus q.status)))
+    let released := (pre.g.deposits.filter (fun d => finalised.any (·.id == d.pid)))
+    let burned := Coins.sub pre.l.supply ds.ledger.supply
+    if !finalised.isEmpty then ds := stat ds "sit.c11.proposals_finalised"
+    if !(Coins.isZero burned) then ds := stat ds "sit.c11.deposits_burned"
+    let depositors := (released.map (·.depositor)).eraseDups
+    let mut back : Coins := []
+    for a in depositors do
+      back := Coins.add back (Coins.sub (ds.ledger.bal a) (pre.l.bal a))
+    let total := released.foldl (fun acc d => Coins.add acc d.amount) ([] : Coins)
+    if !Coins.beq total (Coins.add back burned) then
+      ds ← finding ds "monitor" "C11" "refund_or_burn_exact" s!"released={Coins.toStr total} returned={Coins.toStr back} burned={Coins.toStr burned} proposals={finalised.map (·.id)}"
+    if Coins.isZero burned then
+      for a in depositors do
+        let mine := (released.filter (·.depositor == a)).foldl (fun acc d => Coins.add acc d.amount) ([] : Coins)
+        let got := Coins.sub (ds.ledger.bal a) (pre.l.bal a)
+        if !Coins.beq mine got then
+          ds ← finding ds "monitor" "C11" "refund_or_burn_exact" s!"depositor {a} had {Coins.toStr mine} in escrow, received {Coins.toStr got}"
+    -- C12: outcome of each round, restated independently
+    for p in pre.g.proposals do
+      match ds.gov.proposals.find? (·.id == p.id) with
+      | none => pure ()
+      | some q =>
+        let votes := pre.g.votes.filter (·.pid == p.id)
+        if p.status == 3 && q.status != 3 && p.kind != "claim" then
+          ds := stat ds s!"sit.c12.stake_round_ended.{q.status}"
+          let tp := if p.kind == "certifierUpdate" then pre.g.params.certStake else pre.g.params.default
+          let (pass, veto, decisive) := GovD.specStakeRule preStake votes tp
+          if decisive then
+            let passed := q.status == 4 || q.status == 6
+            if pass != passed then
+              ds ← finding ds "monitor" "C12" "stake_round_rule" s!"proposal {p.id} ({p.kind}): rule says pass={pass} veto={veto}, status {q.status}; votes={votes.map (fun v => (v.voter, v.option))}"
+            if veto != !(Coins.isZero burned) && finalised.length == 1 then
+              ds ← finding ds "monitor" "C11" "veto_burns" s!"proposal {p.id}: veto={veto} burned={Coins.toStr burned}"
+          else ds := stat ds "sit.c12.rule_too_close_to_call"
+        if p.status == 2 && q.status != 2 then
+          ds := stat ds s!"sit.c12.certifier_round_ended.{q.status}"
+          let (pass, decisive) := GovD.specSecurityRule pre.c.certifiers.length votes pre.g.params.security
+          if decisive then
+            if p.kind == "certifierUpdate" then
+              if pass != (q.status == 4 || q.status == 6) && !(q.status == 3 && !pass) then
+                ds ← finding ds "monitor" "C12" "certifier_round_rule" s!"proposal {p.id}: certifiers pass={pass}, status {q.status}"
+            else
+              if pass != (q.status == 3) then
+                ds ← finding ds "monitor" "C12" "certifier_round_rule" s!"proposal {p.id} ({p.kind}): certifiers pass={pass}, status {q.status}"
+  ds ← transitionMonitors ds pre.g pre.c true
+  runMonitors ds false true
 
 partial def loop (hIn : IO.FS.Stream) (ds : DS) : IO DS := do
   let line ← hIn.getLine
@@ -238,8 +428,8 @@ partial def loop (hIn : IO.FS.Stream) (ds : DS) : IO DS := do
           | _ => []
         let ds0 : DS := { sys := { names := names }, hist := J.intOf j "seed", line := ds.line, h := J.intOf j "h", t := J.intOf j "t",
                           stats := ds.stats, nFind := ds.nFind, nSample := ds.nSample }
-        let ds0 := loadObs ds0 (J.get j "st")
-        runMonitors (stat ds0 "history") false
+        let ds0 := noteStatuses (loadObs ds0 (J.get j "st"))
+        runMonitors (stat ds0 "history") false true
       | "tx" => handleTx ds j
       | "begin" => handleBegin ds j
       | "end" => handleEnd ds j
